@@ -41,21 +41,28 @@ class Searches:
         needle_type = type(typed_needle)
         matches: bool = False
 
+        # Text tests act on the value's own text rather than on the text of
+        # its literal evaluation:  '1.50' starts with '1.50', not just '1.5',
+        # and "'abc'" is not the same text as 'abc'.
+        haystack_text = str(haystack)
+
         if method is PathSearchMethods.EQUALS:
             if isinstance(typed_haystack, bool) and needle_type is bool:
                 matches = typed_haystack == typed_needle
-            elif isinstance(typed_haystack, int) and needle_type is int:
+            elif (isinstance(typed_haystack, int)
+                  and not isinstance(typed_haystack, bool)
+                  and needle_type is int):
                 matches = typed_haystack == typed_needle
             elif isinstance(typed_haystack, float) and needle_type is float:
                 matches = typed_haystack == typed_needle
             else:
-                matches = str(typed_haystack) == str(needle)
+                matches = haystack_text == str(needle)
         elif method is PathSearchMethods.STARTS_WITH:
-            matches = str(typed_haystack).startswith(needle)
+            matches = haystack_text.startswith(needle)
         elif method is PathSearchMethods.ENDS_WITH:
-            matches = str(typed_haystack).endswith(needle)
+            matches = haystack_text.endswith(needle)
         elif method is PathSearchMethods.CONTAINS:
-            matches = needle in str(typed_haystack)
+            matches = needle in haystack_text
         elif method is PathSearchMethods.GREATER_THAN:
             if isinstance(typed_haystack, int):
                 if isinstance(typed_needle, (int, float)):
@@ -68,7 +75,7 @@ class Searches:
                 else:
                     matches = False
             else:
-                matches = str(typed_haystack) > str(needle)
+                matches = haystack_text > str(needle)
         elif method is PathSearchMethods.LESS_THAN:
             if isinstance(typed_haystack, int):
                 if isinstance(typed_needle, (int, float)):
@@ -81,7 +88,7 @@ class Searches:
                 else:
                     matches = False
             else:
-                matches = str(typed_haystack) < str(needle)
+                matches = haystack_text < str(needle)
         elif method is PathSearchMethods.GREATER_THAN_OR_EQUAL:
             if isinstance(typed_haystack, int):
                 if isinstance(typed_needle, (int, float)):
@@ -94,7 +101,7 @@ class Searches:
                 else:
                     matches = False
             else:
-                matches = str(typed_haystack) >= str(needle)
+                matches = haystack_text >= str(needle)
         elif method is PathSearchMethods.LESS_THAN_OR_EQUAL:
             if isinstance(typed_haystack, int):
                 if isinstance(typed_needle, (int, float)):
@@ -107,10 +114,10 @@ class Searches:
                 else:
                     matches = False
             else:
-                matches = str(typed_haystack) <= str(needle)
+                matches = haystack_text <= str(needle)
         elif method == PathSearchMethods.REGEX:
             matcher = re.compile(needle)
-            matches = matcher.search(str(typed_haystack)) is not None
+            matches = matcher.search(haystack_text) is not None
         else:
             raise NotImplementedError
 
